@@ -11,6 +11,7 @@ import (
 	"github.com/ipld/go-ipld-prime/zzverif/ref/fnode"
 	"github.com/ipld/go-ipld-prime/zzverif/ref/gen"
 	"github.com/ipld/go-ipld-prime/zzverif/ref/nodecheck"
+	"github.com/ipld/go-ipld-prime/zzverif/ref/refschema"
 	"github.com/ipld/go-ipld-prime/zzverif/ref/refval"
 	"github.com/ipld/go-ipld-prime/zzverif/schemas"
 )
@@ -177,6 +178,11 @@ func HEqualCopy() {
 		nd.NoPanic("Copy after Reset", func() { err2 = datamodel.Copy(y, nb) })
 		if err2 == nil {
 			c2 := nb.Build()
+			// both copies come from the same (possibly kind-specific) prototype: same dynamic types
+			nd.NoPanic("DeepEqual of two nodes of one prototype", func() {
+				nd.Assert(datamodel.DeepEqual(c, c), "DeepEqual is reflexive on nodes of every prototype")
+				nd.Assert(datamodel.DeepEqual(c2, c) == nodecheck.AbstractEqual(b, a), "DeepEqual of two nodes built by one prototype agrees with equality of the abstract values")
+			})
 			nd.Assert(nodecheck.AbstractEqual(refval.Of(c2), b), "a copy made with the reset builder denotes its source")
 			nd.Assert(nodecheck.AbstractEqual(refval.Of(c), a), "and the earlier copy still denotes the first value")
 		}
@@ -289,6 +295,36 @@ func HTypedUint() {
 		nd.Assert(refval.Equal(refval.Of(n), v), "and reads back as exactly that value, in its place")
 		nd.Assert(n.Length() == int64(len(v.L)), "with the length of what was assembled")
 	}
+	nd.Reach("end")
+}
+
+// HTypedAny: typed containers of Any values (also nullable ones) hold arbitrary data-model values:
+// what is assembled reads back through every accessor, iterator and lookup form.
+func HTypedAny() {
+	ts := schemas.TypeSystem()
+	name := []string{"ListNA", "MapSA", "WithAny"}[nd.Choose("type", 3)]
+	t := schemas.ByName(name)
+	g := &refschema.G{NarrowInts: true}
+	v := g.Gen(t)
+	nb := bindnode.Prototype(nil, ts.TypeByName(name)).NewBuilder()
+	var err error
+	nd.NoPanic("assemble", func() { err = refschema.Assign(nb, v) })
+	nd.Assert(err == nil, "a value of the type is accepted")
+	if err != nil {
+		return
+	}
+	n := nb.Build()
+	nd.NoPanic("read", func() {
+		nodecheck.Check(n, v, nodecheck.Opts{Probe: nd.String("probe", 1), ProbeIx: nd.Int64("probeix"), Deep: true, Typed: true})
+	})
+	var eq bool
+	nd.NoPanic("DeepEqual / Copy", func() {
+		nb2 := basicnode.Prototype.Any.NewBuilder()
+		if datamodel.Copy(n, nb2) == nil && name != "WithAny" {
+			eq = datamodel.DeepEqual(n, nb2.Build())
+			nd.Assert(eq, "a generic copy of the typed node is DeepEqual to it")
+		}
+	})
 	nd.Reach("end")
 }
 
